@@ -452,7 +452,7 @@ def _derived_from(f, seed):
             t = blk["t"]
             if t[0] == "call":
                 d = t[1].get("dest")
-                if d is not None and not d[1] and d[0] not in der and d[0] != 0:
+                if d is not None and not d[1] and d[0] not in der:
                     if any(C.op_local(a) in der for a in t[1]["args"] if C.op_local(a) is not None):
                         der.add(d[0])
                         changed = True
